@@ -47,7 +47,7 @@ checks = {
    "For gap limits 2,3(,4): every history of address requests of both classes, payments to issued addresses, reorganisations removing payments and restarts up to the stated depth; each NewAddress outcome is compared with the issuing rule and with an independent derivation of the next address; in every state the listings, used flags and the ledger are compared with the reference and three mnemonic restores into a fresh second instance must rediscover every address with best-chain history.",
    "§5 C12"),
  "C18": (FE, "faultenum", "exhaustive storage-fault enumeration (every fallible database call index x repeat count of every base history) through a db seam",
-   "For the shortest history of every state of the C01 space up to the base depth, and of a second space with API operations and background steps (mnemonic import, rescan batches, removal call and run, NewAddress, restart), each fallible wallet-database call in turn (and runs of 2/3 consecutive calls) returns an error; an operation that reported failure is repeated once storage works again (the worker's own re-queueing is modelled from what the step returned); afterwards every wallet must be ready or gone, no phantom wallet or skipped/duplicated address may exist, and all ledger queries must equal the reference ledger.",
+   "For the shortest history of every state of the C01 space up to the base depth, and of a second space with API operations and background steps (mnemonic import, rescan batches, removal call and run, NewAddress, restart), each fallible wallet-database call in turn (and runs of 2/3 consecutive calls) returns an error; an operation that reported failure is repeated once storage works again (the worker's own re-queueing is modelled from what the step returned); afterwards every wallet must be ready or gone, no phantom wallet or skipped/duplicated address may exist, and all ledger queries must equal the reference ledger. A third, directed pass injects the fault below the ldb backend (every LevelDB journal write of 6 histories fails in turn; restart, catch-up, same oracle).",
    "§5 C18"),
  "C19": (MC, "apienum", "exhaustive product of per-parameter domains for every API method in 9 reachable wallet states, under recover, plus malformed relays",
    "For each of 24 reachable wallet states (among them: between two rescan batches of an import with a credit already recorded) and each of the 28 request-taking API methods the full product of small per-field domains (derived from the request type by reflection, largest domains trimmed only above the cap) is executed on the real APIServer over the real wallet under recover() with FATAL trapping, followed by a follower liveness probe (imports get a fresh valid mnemonic per call, so every combination of the other parameters meets a wallet that can still be imported; index hints around and far beyond the gap window); in every state 20 block contents the simulator can build and 12 malformed relayed transactions go to the follower entry point, which must survive and apply the next tip.",
